@@ -47,6 +47,7 @@ import warnings
 from bounded.common import *  # noqa: F401,F403
 from bounded.common import build_tree, shapes_upto, shapes_exact, length_patterns, pmap, rng_for, n_leaves, LABELS, with_unifurcations, time_limit, Timeout
 from specs import trees as S
+from bounded.guard import cpu_limit, CpuTimeout
 from specs import bipart as BP
 from specs import reroot as RR
 
@@ -597,13 +598,13 @@ def step(t, env, d):
     if _HANGS.get(d["op"], 0) >= HANG_LIMIT:
         return [(name("terminates"), "not run: this operation already hung %d times in this worker" % HANG_LIMIT)], True
     try:
-        with time_limit(HANG_SECONDS):
+        with cpu_limit(HANG_SECONDS):
             with warnings.catch_warnings():
                 warnings.simplefilter("ignore")
                 P.call()
-    except Timeout:
+    except CpuTimeout:
         _HANGS[d["op"]] = _HANGS.get(d["op"], 0) + 1
-        return [(name("terminates"), "no result after %s s" % HANG_SECONDS)], True
+        return [(name("terminates"), "no result after %s s of CPU time" % HANG_SECONDS)], True
     except Exception as ex:
         raised = ex
     if raised is not None:
@@ -660,7 +661,7 @@ def traversal_errors(t, reach):
     want = sorted(id(x) for x in reach)
     leaves = sorted(id(x) for x in reach if not x._child_nodes)
     try:
-        with time_limit(10):
+        with cpu_limit(10):
             for nm, it in (("preorder_node_iter", t.preorder_node_iter), ("postorder_node_iter", t.postorder_node_iter),
                            ("levelorder_node_iter", t.levelorder_node_iter), ("nodes", t.nodes)):
                 got = sorted(id(x) for x in it())
@@ -679,7 +680,7 @@ def traversal_errors(t, reach):
                 if x.parent_node is not x._parent_node or x.child_nodes() != list(x._child_nodes) or x.edge.head_node is not x \
                         or x.edge.tail_node is not x._parent_node:
                     return "public accessors disagree with the raw pointers"
-    except Timeout:
+    except CpuTimeout:
         return "a traversal did not terminate within 10 s"
     return None
 
@@ -711,7 +712,10 @@ def apply_quiet(t, env, d):
 
 def explore(item):
     """exhaustive histories from one start tree.  item = (spec, levels, sublevels, first) with levels = menu level per
-    depth; first = index of the first operation in the depth-0 menu (None = all), so that the parent can fan out"""
+    depth.  first = None: everything; first = i: only histories whose first operation is the i-th of the depth-0 menu;
+    first = (i, j): only the histories of length >= 3 that start with the i-th and then the j-th operation (their two
+    first evaluations are counted and reported by the item with first = i and levels cut to two), so that the parent
+    can fan out deep explorations evenly"""
     spec, levels, sublevels, first = item
     out = []
     flags = []
@@ -722,7 +726,7 @@ def explore(item):
         for d in prefix:
             apply_quiet(t, env, d)
         ops = menu(t, levels[depth], sublevels[depth])
-        if depth == 0 and first is not None:
+        if depth == 0 and isinstance(first, int):
             ops = ops[first:first + 1]
         for d in ops:
             hist = prefix + [d]
@@ -736,7 +740,20 @@ def explore(item):
             if not broken and depth + 1 < len(levels):
                 rec(hist, depth + 1)
 
-    rec([], 0)
+    if isinstance(first, tuple):
+        t, env = mk(spec)
+        prefix = []
+        for depth, i in enumerate(first):
+            ops = menu(t, levels[depth], sublevels[depth])
+            if i >= len(ops):
+                return dict(n=0, nontrivial=[], fails=[])
+            fails, broken = step(t, env, ops[i])
+            prefix.append(ops[i])
+            if broken:
+                return dict(n=0, nontrivial=[], fails=[])
+        rec(prefix, len(first))
+    else:
+        rec([], 0)
     return dict(n=len(flags), nontrivial=flags, fails=out)
 
 
@@ -746,14 +763,30 @@ def fan_out(specs, levels, sublevels=None):
     for sp in specs:
         if len(levels) == 1:
             items.append((sp, levels, sublevels, None))
-        else:
-            k = len(menu(mk(sp)[0], levels[0], sublevels[0]))
-            for i in range(k):
-                items.append((sp, levels, sublevels, i))
+            continue
+        t0, env0 = mk(sp)
+        ops0 = menu(t0, levels[0], sublevels[0])
+        for i, d in enumerate(ops0):
+            items.append((sp, levels[:2], sublevels[:2], i))
+            if len(levels) >= 3:
+                t, env = mk(sp)
+                apply_quiet(t, env, d)
+                try:
+                    k = len(menu(t, levels[1], sublevels[1])) if not S.arborescence_errors(t) else 0
+                except Exception:
+                    k = 0
+                for j in range(k):
+                    items.append((sp, levels, sublevels, (i, j)))
     return items
 
 
+SHRINKING = ("prune_taxa", "prune_taxa_with_labels", "retain_taxa", "retain_taxa_with_labels", "filter_leaf_nodes", "prune_subtree",
+             "prune_nodes", "remove_child", "reversible_remove_child", "clear_child_nodes", "set_seed_node", "prune_leaves_without_taxa")
+
+
 def random_histories(item):
+    """one seeded history: the operation family is drawn uniformly, then the instance (target, options) uniformly;
+    families that take leaves away are drawn only while the tree has more than 6 leaves, so that histories get long"""
     spec, seed, length = item
     rng = random.Random(seed)
     t, env = mk(spec)
@@ -762,17 +795,19 @@ def random_histories(item):
     flags = []
     for k in range(length):
         ops = menu(t, 2, 1)
+        nleaves = len(S.leaves(t._seed_node))
+        if nleaves <= 6:
+            ops = [d for d in ops if d["op"] not in SHRINKING or d.get("undo")]
         if not ops:
             break
-        d = rng.choice(ops)
+        fam = rng.choice(sorted(set(d["op"] for d in ops)))
+        d = rng.choice([x for x in ops if x["op"] == fam])
         hist = hist + [d]
         fails, broken = step(t, env, d)
         flags.append(True)
         for nm, detail in fails:
             out.append((nm, hist, detail))
         if broken:
-            break
-        if len(S.pre(t._seed_node)) <= 2:
             break
     return dict(n=len(flags), nontrivial=flags, fails=out)
 
@@ -828,7 +863,7 @@ def t2(ctx):
     thorough = ctx.tier == "thorough"
     reported = {}
     R3 = (None, True, False)
-    kf = lambda it: spec_key(it[0]) + ("" if it[3] is None else "|first=%d" % it[3])
+    kf = lambda it: spec_key(it[0]) + ("" if it[3] is None else "|first=%s" % (it[3],))
     # ---- depth 1: every option value, every target, many start trees (polytomies, unifurcations, missing taxa/lengths)
     N1 = 6 if thorough else 5
     shapes = list(shapes_upto(N1))
@@ -890,8 +925,8 @@ def t2(ctx):
         n = rng.randint(8, 12)
         items.append((dict(shape=random_shape(rng, n), pat=rng.choice(["dyadic", "none", "onemissing", "ones"]), rooted=rng.choice(R3),
                            ns=rng.choice(["exact", "removed"])), rng.randint(1, 10 ** 9), 30))
-    _run_scope(ctx, "random-histories@8-12", "seeded random histories of up to 30 operations (uniform over the full menu of the current tree) from "
-               "random shapes with 8..12 leaves", False, random_histories, items, reported, lambda it: "%s|seed=%d" % (spec_key(it[0]), it[1]))
+    _run_scope(ctx, "random-histories@8-12", "seeded random histories of up to 30 operations (operation family uniform, then target/options uniform over "
+               "the full menu of the current tree; leaf-removing families only while >6 leaves remain) from random shapes with 8..12 leaves", False, random_histories, items, reported, lambda it: "%s|seed=%d" % (spec_key(it[0]), it[1]))
     for nm, cnt in sorted(reported.items()):
         if cnt > MAX_REPORT_PER_MONITOR:
             ctx.note("%s: %d failing evaluations, first %d reported" % (nm, cnt, MAX_REPORT_PER_MONITOR))
